@@ -534,7 +534,6 @@ func isLoadOfSameField(v ssa.Value, addr ssa.Value) bool {
 	return ok1 && ok2 && fa1.X == fa2.X && fa1.Field == fa2.Field
 }
 
-
 // partNameDependsOnID: the hashed name is computed from the BundleID parameter (its String(), or the value itself
 // handed to a formatting function).
 func partNameDependsOnID(bpp *ssa.Function, name ssa.Value) bool {
@@ -623,7 +622,6 @@ func checkStoreOpensAfterKill(p *core.Program, r *core.Report) {
 		r.Check(ok, "crash/"+fname(ns)+"/truncate-allowed", "the index database is opened with Options.Truncate = true, so that a write cut short by a kill costs only that unacknowledged entry and not the start of the node", p.Pos(oc.Pos()), "", "Options.Truncate is not set before badgerhold.Open: after a kill within a Push/Update/Delete the store, and with it the node, does not start any more ('Value log truncate required')")
 	}
 }
-
 
 // checkFileBeforeIndex (shared by C05 and C08): Push writes a part's file first and its index record only after that
 // succeeded, and returns a failed file write to its caller. A record without a file makes the retry of an accepted,
